@@ -20,6 +20,7 @@ package nebula
 import (
 	"fmt"
 	"net/netip"
+	"runtime"
 	"testing"
 	"time"
 
@@ -135,6 +136,51 @@ func TestVerifC32(t *testing.T) {
 				r.Violation(key, fmt.Sprintf("case %d: %d packets sent while pending, %d retained (want %d)", cs, queued, stored, wantStored), rec(map[string]any{"retained": stored}))
 			}
 
+			// Interleaving variant: while the reply is being processed, right before the pending handshake is completed
+			// (verif hook hs.beforeComplete, on the node's own reader goroutine), one more packet is written to the tun and
+			// the hook waits until the tun reader has put it into the pending handshake's queue. It was accepted into the
+			// queue, so it must be sent exactly once, after the packets queued before it.
+			lateQueue := answerAt != 0 && rng.IntN(2) == 0
+			var lateID [16]byte
+			var latePort uint16
+			lateStored := false
+			if lateQueue {
+				latePort = uint16(80 + rng.IntN(2))
+				var latePkt []byte
+				latePkt, lateID = vnUDP4(a.Ident.Addr(), pid.Addr(), 20000, latePort, 8)
+				fired := false
+				hook := func(id int) {
+					if id != verifHsBeforeComplete || fired {
+						return
+					}
+					fired = true
+					count := func() int {
+						hsm.RLock()
+						defer hsm.RUnlock()
+						if hh, ok := hsm.vpnIps[pid.Addr()]; ok {
+							return len(hh.packetStore)
+						}
+						return -1
+					}
+					before := count()
+					a.C.InjectTunPacket(latePkt)
+					limit := 5_000_000
+					if before >= maxCachedPackets {
+						limit = 20_000 // the queue is full, the packet will be counted as dropped, nothing to wait for
+					}
+					for spin := 0; spin < limit; spin++ {
+						if n := count(); n != before {
+							lateStored = n > before
+							break
+						}
+						runtime.Gosched()
+					}
+					r.Count("packets_injected_between_reply_and_completion", 1)
+				}
+				verifHook.Store(&hook)
+				defer verifHook.Store(nil)
+			}
+
 			step := interval / 4
 			var tun *vnTunnel
 			var removedAt time.Time
@@ -177,7 +223,7 @@ func TestVerifC32(t *testing.T) {
 					break
 				}
 			}
-			r.DistinctClass(fmt.Sprintf("interval=%s retries=%d queued=%s rules=%d answered_at=%d", interval, retries, map[bool]string{true: ">100", false: "<=100"}[queued > 100], ruleClass, answerAt))
+			r.DistinctClass(fmt.Sprintf("interval=%s retries=%d queued=%s rules=%d answered_at=%d late_queue=%v", interval, retries, map[bool]string{true: ">100", false: "<=100"}[queued > 100], ruleClass, answerAt, lateQueue))
 			r.Distinct(fmt.Sprintf("case %d", cs))
 			r.Eval(len(stamps))
 
@@ -258,6 +304,10 @@ func TestVerifC32(t *testing.T) {
 				if allowed(ports[i]) {
 					want = append(want, ids[i])
 				}
+			}
+			if lateQueue && lateStored && allowed(latePort) {
+				want = append(want, lateID)
+				r.Count("late_queued_packets_expected", 1)
 			}
 			r.Count("queued_packets_expected_on_completion", len(want))
 			if !c32Equal(got, want) {
